@@ -825,13 +825,13 @@ def r7_bookkeeping(report, repo):
 
 
 def run(report, repo):
-  r1_dispatch(report, repo)
-  r2_r4_phase_and_checkpoint(report, repo)
-  r3_sequences(report, repo)
-  r4_subtest(report, repo)
-  r5_records(report, repo)
-  r6_conditions(report, repo)
-  r7_bookkeeping(report, repo)
+  report.guard(r1_dispatch, report, repo)
+  report.guard(r2_r4_phase_and_checkpoint, report, repo)
+  report.guard(r3_sequences, report, repo)
+  report.guard(r4_subtest, report, repo)
+  report.guard(r5_records, report, repo)
+  report.guard(r6_conditions, report, repo)
+  report.guard(r7_bookkeeping, report, repo)
   # C02-R2 group sites are decided by the group table shared with C03
   from sa.rules import c03  # pylint: disable=g-import-not-at-top
-  c03.group_table(report, repo, 'C02-R2')
+  report.guard(c03.group_table, report, repo, 'C02-R2')
